@@ -2,6 +2,17 @@ package main
 
 // propRules: which rules decide which property.
 var propRules = map[string][]ruleSpec{
+	"C01": {
+		{"R5", "Run/applyOp plumbing M2-M9, M13", ruleR5},
+		{"R2", "registry and constructor freshness (M12)", ruleR2},
+		{"R4", "node output names not interpreted by operators", ruleR4},
+		{"R1", "no package-level state written", ruleR1},
+	},
+	"C13": {
+		{"R17", "validateShapes structure V1-V8", ruleR17},
+		{"R5", "validator runs first (M1)", ruleR5},
+		{"R3", "validator touches no tensor (E2)", ruleR3},
+	},
 	"C02": {
 		{"R3", "borrowed tensors / shared storage never mutated (E2)", ruleR3},
 		{"R1", "no package-level state written after init", ruleR1},
